@@ -165,6 +165,11 @@ def scenarios(ctx):
     # the production settings of the batcher: timeout of one microsecond
     for n in (1, 9, 10, 11, 101):
         add("batcher", n, 10, "slowprod", PROCS[n % 4], timeout_us=1)
+    # items the serializer cannot encode (NaN): they owe no output, all other items keep order and multiplicity
+    for n in ([1, 3, 9, 41, 103] if not thorough else LENGTHS):
+        for w in ([4, 1] if not thorough else WS["marshal"]):
+            add("marshal", n, w, "nan", PROCS[(n + w) % 4])
+        add("serde", n, 4, "nan", PROCS[n % 4])
     for i, s in enumerate(out):
         s["i"] = i
     return out
